@@ -14,6 +14,8 @@
    restart-delay object (g52v1/v2, below). *)
 From Dnp3V Require Import Base.Bytes.
 
+Module MP.
+
 Definition byte := N.
 
 Definition c_fir (c : N) : bool := N.testbit c 7.
@@ -60,3 +62,5 @@ Definition restart_delay (objs : list byte) : option N :=
     if v =? 1 then Some (1000 * le16 a b) else if v =? 2 then Some (le16 a b) else None
   | _ => None
   end.
+
+End MP.
